@@ -13,6 +13,28 @@ CLAIMED = {
             "4/C10"),
 }
 
+EXPL = "Exploration by generated-input search against an independent oracle; "
+CLAIMED.update({
+    "C03": ("Hypothesis-generated algebra/group elements vs 50-digit mpmath matrix exponential (differential oracle) and exp/log round trips",
+            EXPL + "exp is compared with a 50-digit reference exponential, log is judged by structure, magnitude and reference-exp round trip over rotation magnitudes log-uniform from 1e-12 to pi (both ends, exact 0 and pi), translations to 1e6, vector/matrix forms, 2D and 3D, base functions and class wrappers.",
+            "mpmath and the closed-form reference exponential in pbt/refs.py (cross-checked at start-up); tolerance 1e-7*max(1,|t|) as stated", "4/C03"),
+    "C05": ("Hypothesis-generated angle triples / axis-angle pairs biased to singular configurations; right-inverse and documented-order oracles built from reference axis rotations",
+            EXPL + "constructors are compared with the documented product of reference axis rotations, extraction is judged by rebuilding the matrix (1e-6) and by angle ranges, including exact singular values and offsets 1e-12..1e-1 around them, every order/alias, flip, deg/rad, SO3/SE3/UnitQuaternion methods and the planar functions.",
+            "reference rotations in pbt/refs.py; extraction is not required to return the generating angles", "4/C05"),
+    "C13": ("Hypothesis-generated vectors (incl. exact integers), rigid motions and twists; algebraic identities checked against reference adjoint / scipy expm",
+            EXPL + "hat/vee maps are checked exactly on integer vectors, adjoint identities (homomorphism, inverse, conjugation, exp(ad)=Ad(exp)), Jacobians and differential motion over the whole group with |t| <= 1e3 and |d| in 1e-9..1e-2.",
+            "NumPy/SciPy linear algebra and pbt/refs.py; tolerances as stated in the property", "4/C13"),
+    "C14": ("Hypothesis-generated perturbed members, vectors, quaternions, twists around the zero threshold and angles incl. multiples of pi; validity, idempotence and direction oracles (mpmath for congruence)",
+            EXPL + "trnorm/unit/unitvec/unittwist/angdiff and their class wrappers are judged by validity of the result, idempotence, fixed-point on valid input and preserved directions to 1e-12.",
+            "mpmath for the modulo-2pi residual; one recorded finding (F-C14-1) is excluded by site+input class", "4/C14"),
+    "C18": ("Hypothesis-generated screw axes, points and angles; geometric oracle (axis points fixed, reference Rodrigues rotation, translation along unit direction)",
+            EXPL + "revolute/prismatic unit twists in 3D and 2D with axis lengths 1e-3..1e6, |q| <= 1e3, theta in [-2pi,2pi] (scalar, vector, deg) are exponentiated and judged geometrically, with pitch/pole/line/theta/isprismatic/se3/inv/scalar-multiple consistency.",
+            "pbt/refs.py Rodrigues; tolerance 1e-9*max(1,|q|)", "4/C18"),
+    "C20": ("exhaustive class-pair x length cells + Hypothesis-generated 6-vectors, inertias and rigid motions against explicit 6x6 matrix formulas",
+            EXPL + "typed arithmetic is enumerated over every ordered pair of the four spatial-vector classes and lengths 1..3; cross products, parallel-axis inertia, inertia sums/products and SE3 premultiplication are compared with explicit matrix formulas for magnitudes 1e-6..1e6.",
+            "reference adjoint / skew from pbt/refs.py; 1e-9 relative", "4/C20"),
+})
+
 NOT_YET = {}
 
 
